@@ -215,6 +215,11 @@ pub trait Sampler: Send + Sync {
     fn getters(&self) -> Outcome;
     fn dimension(&self) -> usize;
     fn image(&self) -> Tree;
+    /// image used for COMPARING samplers: that of a clone on which every lazily
+    /// initialised part has been forced (getters and one sample call at a fixed
+    /// point, plain f64, no seam events).  Idempotent initialisation on first use is
+    /// not a modification; anything else sampling leaves behind still shows.
+    fn image_settled(&self) -> Tree;
     /// what a format with is_human_readable() == false would write
     fn image_binary(&self) -> Result<Tree, String>;
     fn clone_box(&self) -> Box<dyn Sampler>;
@@ -353,6 +358,21 @@ impl<const D: usize> Sampler for SampleGenerator<D> {
             let _ = self.get_num_edges();
         }));
         store::to_tree(self).expect("SimStore cannot represent the sampler")
+    }
+    fn image_settled(&self) -> Tree {
+        let c = match catch_unwind(AssertUnwindSafe(|| {
+            let c = self.clone();
+            let n = c.get_dimension();
+            let e = c.get_num_edges();
+            let pt: Vec<u64> = vec![0.5f64.to_bits(); n];
+            let ed: EdgeData = (0..e).map(|_| (Some(1.0f64.to_bits()), vec![0u64; D])).collect();
+            let _ = do_sample_x::<f64, D>(&c, &pt, &ed, &Settings::plain());
+            c
+        })) {
+            Ok(c) => c,
+            Err(_) => return self.image(),
+        };
+        c.image()
     }
     fn image_binary(&self) -> Result<Tree, String> {
         let _ = catch_unwind(AssertUnwindSafe(|| {
